@@ -426,6 +426,24 @@ def search(ctx):
         if msg:
             for f in attribute(cfg, msg, channel=hist['kind'], hist=hist):
                 ctx.fail(f['signature'], f['what'], dict(kind='diff', cfg=cfg, hist=hist))
+    # the fixed zoo of unusual-but-valid configurations, each under one process history (rotating)
+    from harness import zoo
+    import copy
+    zc = zoo.configs()
+    kinds = ['perturb-at-boundary', 'other-sim-between', 'interleaved-steps', 'twin-alternate', 'twin-copy', 'other-sim-before']
+    for i, (name, cfg) in enumerate(zc):
+        kind = kinds[(i + ctx.seed) % len(kinds)]
+        hist = dict(kind=kind, n=1 + (i % 7), k=3 + 5 * (i % 9))
+        if 'other' in kind: hist['other'] = copy.deepcopy(zc[(i + 7) % len(zc)][1])
+        if kind == 'interleaved-steps': hist['other'] = dict(copy.deepcopy(cfg), rand_seed=cfg['rand_seed'] + 17)
+        try:
+            msg = oracle_diff(cfg, hist)
+        except Exception as e:
+            ctx.count('zoo_exceptions'); ctx.notes['last_zoo_exception'] = f'{name} / {kind}: {type(e).__name__}: {e}'; continue
+        ctx.count('zoo_runs')
+        if msg:
+            for f in attribute(cfg, f'[zoo:{name}] ' + msg, channel=kind, hist=hist):
+                ctx.fail(f['signature'], f['what'], dict(kind='diff', cfg=cfg, hist=hist))
     # fresh interpreter / other hash seed (expensive: few)
     for k in range(ctx.budget(3, 12)):
         # products loop over string-keyed tables (disease states): the hash-seed-sensitive part
